@@ -3,7 +3,8 @@ from .. import oracles
 from . import register
 from .common import PoolMixFamily
 
-OPTS = {"max_connections": [1, 1, 2, 2, 3, 4], "p_srv_idle_close": 0.1, "p_trace": 0.0}
+OPTS = {"max_connections": [1, 1, 2, 2, 3, 4], "p_srv_idle_close": 0.1, "p_trace": 0.0,
+        "p_h2_events": 0.4}
 
 FAMS = [
     PoolMixFamily("C04", "limit-async-clean", 2500, 40000,
